@@ -1,10 +1,11 @@
 """Ways of building the same hypergraph from presence bits: the result is the same abstract hypergraph, but the
 internal identifiers / insertion order differ (id gaps after removals, re-inserted hyperedges)."""
 
-MODES = ("add", "add-rev", "remove", "readd")
+MODES = ("add", "add-rev", "remove", "readd", "shrink")
+EXTRA = 99
 
 
-def build_from_bits(cands, bits, add, remove, mode="add"):
+def build_from_bits(cands, bits, add, remove, mode="add", shrink=None):
     """add(c) inserts candidate c, remove(c) removes it; returns the list of present candidates"""
     present = [c for c, b in zip(cands, bits) if b]
     if mode == "add":
@@ -26,6 +27,14 @@ def build_from_bits(cands, bits, add, remove, mode="add"):
         if present:
             remove(present[0])
             add(present[0])
+    elif mode == "shrink":
+        # the first present hyperedge is inserted a second time with an extra node, which is then removed keeping the
+        # hyperedges: the shrunk hyperedge coincides with the one already there (same content as "add")
+        for c in present:
+            add(c)
+        if present:
+            add(tuple(present[0]) + (EXTRA,))
+            shrink(EXTRA)
     else:
         raise KeyError(mode)
     return present
